@@ -40,6 +40,9 @@ type fileConfig struct {
 	callbacks    []ConfigReloadCallback
 	mux          sync.RWMutex
 	lastLoadTime time.Time
+	// currentVersion is the running version startup validated against (if any);
+	// reloads validate against it too.
+	currentVersion []string
 }
 
 // ensure that fileConfig implements Config
@@ -583,6 +586,8 @@ func newFileConfig(opts *CmdEnv, cData, rulesData []configData, currentVersion .
 		rulesConfig: rulesconf,
 		rulesHash:   ruleshash,
 		opts:        opts,
+
+		currentVersion: currentVersion,
 	}
 
 	// Return warning error if there were warnings but no real errors
@@ -666,7 +671,7 @@ func (f *fileConfig) Reload(opts ...ReloadedConfigDataOption) error {
 	}
 
 	// reread the configs
-	cfg, err := newFileConfig(f.opts, newData.configs, newData.rules)
+	cfg, err := newFileConfig(f.opts, newData.configs, newData.rules, f.currentVersion...)
 	// as at startup, only a nil config is fatal; a non-nil config that comes
 	// with an error merely carries warnings and is applied
 	if cfg == nil {
